@@ -16,7 +16,7 @@ RULE = ("modules mixing documented and undocumented commands of all ten include_
         "named after an undocumented K-command when K is off, (c) members of hidden classes appear nowhere. "
         "Non-trivial: a vector switches off a flag whose kind occurs both documented and undocumented in the module; "
         "distinct by SHA-1 of the case")
-RULE_MORE = 'deliberate duplicate names (entries are attributed by doc marker) and doccommented implementing definitions (their entry must not depend on the flags).'
+RULE_MORE = 'deliberate duplicate names (entries are attributed by doc marker) and doccommented implementing definitions (their entry must not depend on the flags). Later: classes declared twice; one Settings object changed in place between the runs.'
 ASSUMPTIONS = ["nothing is asserted about undocumented entries of kinds that stay on (e.g. an implementing definition that "
                "becomes an ordinary function when its declaration is hidden)",
                "names are unique per module, so entries are matched by name and doc marker"]
